@@ -294,6 +294,25 @@ pub fn run_child(bin: &Path, argv_tail: &[String], s: &Scratch, out: &OutFault) 
     (res, out_path)
 }
 
+/// What is at the output path before the tool runs: 0 nothing, 1 a longer file of garbage, 2 a
+/// longer file that is itself a valid artefact of the same kind (`valid`, repeated). A tool that
+/// opens its target without truncating leaves a stale tail behind.
+pub fn precreate(path: &Path, pre: u8, valid: &str) {
+    match pre {
+        1 => {
+            let _ = std::fs::write(path, "#".repeat(6000));
+        }
+        2 => {
+            let mut t = String::new();
+            while t.len() < 6000 {
+                t += valid;
+            }
+            let _ = std::fs::write(path, t);
+        }
+        _ => {}
+    }
+}
+
 /// A symbolic link `<scratch>/<name>` -> /dev/full: every write(2) through it fails with ENOSPC.
 pub fn enospc_target(s: &Scratch, name: &str) -> PathBuf {
     let p = s.path(name);
